@@ -78,7 +78,7 @@ func Unpack(buf []byte, dotu bool) (fc *Fcall, fcsz int, err error) {
 		}
 
 		if dotu {
-			if len(p) > 0 {
+			if len(p) >= 4 {
 				fc.Unamenum, p = gint32(p)
 			} else {
 				fc.Unamenum = NOUID
@@ -107,7 +107,7 @@ func Unpack(buf []byte, dotu bool) (fc *Fcall, fcsz int, err error) {
 		}
 
 		if dotu {
-			if len(p) > 0 {
+			if len(p) >= 4 {
 				fc.Unamenum, p = gint32(p)
 			} else {
 				fc.Unamenum = NOUID
